@@ -31,7 +31,7 @@ func solverList() []solverSpec {
 // smtGround: the query with triggered quantifiers instantiated by the engine and
 // every quantified assumption dropped ("" when the query has no triggered quantifier).
 func (fv *FuncVer) smtGround(q *Query) string {
-	insts := instantiate(q.Assumptions, q.Goal, 3, 400)
+	insts := instantiate(q.Assumptions, q.Goal, 3, 600)
 	if len(insts) == 0 {
 		return ""
 	}
@@ -121,6 +121,14 @@ func runSolver(ctx context.Context, sp solverSpec, text string, timeout time.Dur
 	err := cmd.Run()
 	ms := int(time.Since(t0).Milliseconds())
 	s := out.String()
+	// warnings (e.g. "'if' cannot be used in patterns": the pattern is ignored) precede the verdict
+	for strings.HasPrefix(s, "WARNING") {
+		i := strings.Index(s, "\n")
+		if i < 0 {
+			break
+		}
+		s = s[i+1:]
+	}
 	first := strings.TrimSpace(strings.SplitN(s, "\n", 2)[0])
 	switch first {
 	case "sat", "unsat", "unknown":
@@ -165,8 +173,10 @@ func solve2(text, ground string, timeout time.Duration, thorough bool) solveResu
 	launch(sps[0], text, true, "")
 	launch(sps[0], ground, false, "+inst")
 	launch(sps[len(sps)-1], ground, false, "+inst")
+	// the two z3 generations differ widely on quantified goals: always race both
+	launch(sps[2], text, true, "")
+	launch(sps[1], text, true, "")
 	if thorough {
-		launch(sps[2], text, true, "")
 		launch(sps[len(sps)-1], text, true, "")
 	}
 	res := solveResult{result: "unknown", all: map[string]string{}}
